@@ -60,11 +60,25 @@ class UserClass(Model):
         d["_uc_fields"] = [(n_, dflt) for n_, dflt, k_ in params if k_ == "field"]
 
     def _uc_mro(self):
+        """C3 linearisation, as CPython's (cooperative `super()` calls in a diamond depend on it)."""
+        cached = object.__getattribute__(self, "__dict__").get("_uc_mro_cache")
+        if cached is not None:
+            return cached
+        seqs = [list(b._uc_mro()) for b in self._uc_bases] + [list(self._uc_bases)]
         out = [self]
-        for b in self._uc_bases:
-            for c in b._uc_mro():
-                if c not in out:
-                    out.append(c)
+        while any(seqs):
+            seqs = [s_ for s_ in seqs if s_]
+            for s_ in seqs:
+                head = s_[0]
+                if not any(head in t_[1:] for t_ in seqs):
+                    break
+            else:
+                raise ModelRaise("TypeError", f"Cannot create a consistent method resolution order (MRO) for bases of {self._uc_name}")
+            out.append(head)
+            for s_ in seqs:
+                if s_ and s_[0] is head:
+                    del s_[0]
+        object.__getattribute__(self, "__dict__")["_uc_mro_cache"] = out
         return out
 
     def _uc_lookup(self, name):
@@ -78,6 +92,8 @@ class UserClass(Model):
         # classes derived from this one
         if name.startswith("_uc_") or name in ("__name__", "__qualname__", "__doc__"):
             object.__setattr__(self, name, value)
+        elif hasattr(value, "_cg_fdef") and not isinstance(value, _Method):
+            self._uc_ns[name] = _Method("plain", value)  # a function stored on the class is a method of its instances
         else:
             self._uc_ns[name] = value
 
@@ -417,6 +433,8 @@ def build_class(cdef, interp):
             continue
         if bname in ("object", "Generic", "ABC", "Protocol"):
             continue
+        if bname == "Transformer" and not isinstance(interp.me.env.get("Transformer"), UserClass):
+            continue  # lark's Transformer: no state of its own; its driver (verilogmodel.drive_transformer) calls the callbacks
         if bname in ("Enum", "StrEnum", "IntEnum", "Flag"):
             if bname == "Flag":
                 raise Unsupported("enum.Flag")
